@@ -353,6 +353,23 @@ func init() {
 	te.typ = reflect.TypeOf(tstruct{})
 	add(te)
 
+	ou := &encSpec{name: "OptU16", enc: optU16{}, width: 0}
+	ou.value = func(p []byte) interface{} {
+		if optAbsent(p) {
+			return nil
+		}
+		return uint16(le(p, 2))
+	}
+	ou.ref = func(p []byte) []byte {
+		if optAbsent(p) {
+			return []byte{}
+		}
+		return pad(p, 2)
+	}
+	ou.want = ou.value
+	ou.typ = reflect.TypeOf((*interface{})(nil)).Elem()
+	add(ou)
+
 	// Dummy documents "Decode always returns nil" and encodes to nothing.
 	du := &encSpec{name: "Dummy", enc: encode.Dummy{}, width: 0}
 	du.value = func(p []byte) interface{} { return int32(le(p, 4)) }
@@ -362,8 +379,42 @@ func init() {
 	add(du)
 }
 
+// optU16 is a USER-DEFINED encoder: an optional uint16. An absent value encodes
+// to zero bytes, a present one to two little-endian bytes. slim stores such
+// values in a leaf array with a presence bitmap (newVLenArray keeps empty
+// elements as absent) and always hands Decode exactly the bytes of one element.
+type optU16 struct{}
+
+func (optU16) Encode(d interface{}) []byte {
+	if d == nil {
+		return []byte{}
+	}
+	v := d.(uint16)
+	return []byte{byte(v), byte(v >> 8)}
+}
+func (optU16) Decode(b []byte) (int, interface{}) {
+	if len(b) < 2 {
+		return 0, nil
+	}
+	return 2, uint16(b[0]) | uint16(b[1])<<8
+}
+func (optU16) GetSize(d interface{}) int {
+	if d == nil {
+		return 0
+	}
+	return 2
+}
+func (optU16) GetEncodedSize(b []byte) int {
+	if len(b) < 2 {
+		return 0
+	}
+	return 2
+}
+
+func optAbsent(p []byte) bool { return len(p) == 0 || p[0]%3 == 0 }
+
 var fixedEncNames = []string{"I8", "I16", "I32", "I64", "U16", "U32", "U64", "Int", "Bytes1", "Bytes3", "Bytes5", "Bytes300", "TypeEnc"}
-var allEncNames = append(append([]string{}, fixedEncNames...), "String16", "Dummy")
+var allEncNames = append(append([]string{}, fixedEncNames...), "String16", "Dummy", "OptU16")
 
 func (c *Case) spec() *encSpec {
 	s := encSpecs[c.Enc]
@@ -414,7 +465,9 @@ func (c *Case) typedValues() interface{} {
 	s := c.spec()
 	sl := reflect.MakeSlice(reflect.SliceOf(s.typ), len(c.Vals), len(c.Vals))
 	for i, p := range c.Vals {
-		sl.Index(i).Set(reflect.ValueOf(s.value([]byte(p))))
+		if v := s.value([]byte(p)); v != nil {
+			sl.Index(i).Set(reflect.ValueOf(v))
+		}
 	}
 	return sl.Interface()
 }
